@@ -86,6 +86,11 @@ def _inputs(e, case):
         a[1][0] = None
         a[3][0] = None
         b[1][0] = None
+    if e.name.endswith('-presorted'):
+        # the precondition of presorted=True: rows in (whole-row, hence also f0) order
+        a = a[:1] + sorted(a[1:], key=lambda r: util.model_key(tuple(r)))
+        if b is not None:
+            b = b[:1] + sorted(b[1:], key=lambda r: util.model_key(tuple(r)))
     if 0 in case['empty']:
         a = a[:1]
     if b is not None and 1 in case['empty']:
@@ -104,6 +109,8 @@ def _ref_binary(name, a, b):
          'join-lrkey': ('join', {'lprefix': 'l_', 'rprefix': 'r_'}), 'outerjoin-missing': ('outerjoin', {'missing': 'M'}),
          'hashjoin': ('join', {}), 'hashjoin-nocache': ('join', {}), 'hashleftjoin': ('leftjoin', {}), 'hashrightjoin': ('rightjoin', {}),
          'hashlookupjoin': ('lookupjoin', {}), 'hashjoin-natural': ('join', {})}
+    if name.endswith('-presorted'):
+        name = name[:-len('-presorted')]
     if name in J:
         op, kw = J[name]
         h, r = oracles.ref_join(op, a, b, 'f0', 'f0', **kw)
@@ -240,7 +247,7 @@ def judge(case, ctx):
     if e.kind == 'multi':
         full = [util.rows_of(v) for v in e.build(*full_inputs())]
         out = []
-        if e.arity == 2 and e.name in ('diff', 'recorddiff'):
+        if e.arity == 2 and e.name in ('diff', 'recorddiff', 'diff-presorted'):
             ra, rb = [tuple(r) + (('e%d' % (i + 1),) if four else ()) for i, r in enumerate(a[1:])], [tuple(r) + (('e%d' % (i + 1),) if four else ()) for i, r in enumerate(b[1:])]
             exp = [list((Counter(rb) - Counter(ra)).elements()), list((Counter(ra) - Counter(rb)).elements())]
             ctx.seen('reference-model-used')
